@@ -9,7 +9,30 @@ CHECKS["C01"] = (
     "for ALL integer coordinates of every layout with <=3 (quick) / <=4 (thorough) blocks on both strands: the path tree is "
     "exhausted and each path's negated oracle is unsat. A seeded off-by-one/strand bug is returned as a concrete input and replayed.",
     _NOTE, "DESIGN.md §3 C01")
-for _p in ["C02", "C03", "C04", "C05", "C06", "C07", "C08", "C09", "C10", "C11", "C13", "C14", "C15", "C16", "C17", "C18",
+CHECKS["C02"] = (
+    _CH,
+    "Each set operation (has_overlap, intersection, union, union_preserve_overlaps, minus, contains, gaps, optimisers, extend, "
+    "reverse, shift, distance) is compared with position-set semantics through one symbolic probe position and closed forms, "
+    "for ALL integer coordinates of operands up to (2,1)/(1,2) blocks (quick; 2x2 for full-span, 3x2 for INNER distance) and "
+    "(2,2),(3,1),(1,3) (thorough), all flag combinations, parents none/equal/mismatched; result normal form asserted.",
+    _NOTE, "DESIGN.md §3 C02")
+CHECKS["C06"] = (
+    _CH,
+    "For every exon layout (<=2 exons quick, <=3 thorough) and every CDS window placement (driver-enumerated exon span, symbolic "
+    "offsets) on both strands: chromosome/transcript/CDS conversions commute and invert, out-of-system positions are rejected, "
+    "aa == cds//3 for all start frames, 5'UTR/CDS/3'UTR partition the exons in order (empty UTRs are values), introns == span minus exons.",
+    _NOTE, "DESIGN.md §3 C06")
+CHECKS["C16"] = (
+    "src2smt: bins() translated from its AST to z3 integer terms at every run; z3 + cvc5 decide each query over all integers",
+    "bins() is re-translated from /repo's source on every run and validated against the real function on boundary grids; "
+    "UCSC-equality, out-of-range, containment, int-return and the never-hidden contract (contained and overlapping) are unsat "
+    "queries over ALL integers (no bound); constructor wiring (incl. chunk parents) is decided by CrossHair. Two recorded "
+    "deviations (F6a, F6b) are excluded by their exact regions and replayed on every run.",
+    "Trusted: z3 5.1 / cvc5 1.4 on LIA with div by constants; the translator (validated per run); the independent UCSC "
+    "reference in harness/c16.py. If bins() leaves the translatable subset the SMT obligations are inconclusive and a "
+    "concrete boundary-grid fallback (stated in evidence) is the only remaining detector.",
+    "DESIGN.md §3 C16")
+for _p in ["C03", "C04", "C05", "C07", "C08", "C09", "C10", "C11", "C13", "C14", "C15", "C17", "C18",
            "C19", "C20"]:
     NOT_APPLICABLE[_p] = "check not built yet (build in progress; see DESIGN.md §3 for the planned solver-based check)"
 NOT_APPLICABLE["C12"] = ("GenBank writer cannot emit a feature on the installed Biopython (SeqFeature(strand=) TypeError), the "
